@@ -734,7 +734,7 @@ def r08e(ctx):
                         if id(k) in want and (v.attrs.get("name"),) + ss != want[id(k)]:
                             bad.append(f"{w.describe(k)} -> {w.describe(v)}, the lowest unused name of its space and spin gives "
                                        f"{want[id(k)][0]}{'_' + want[id(k)][2] if want[id(k)][2] else ''}")
-                    elif not any(v is c for c in w.created[before:]) and not flags and not sympy_zero:
+                    elif not any(v is c for c in w.created[before:]):
                         bad.append(f"{w.describe(k)} -> {w.describe(v)} which existed before the call (not a fresh generic index)")
                     elif any(v is s for s in everything):
                         bad.append(f"{w.describe(k)} -> {w.describe(v)} which occurs in the term")
